@@ -121,7 +121,7 @@ theorem post_handle (pre : Path) (c c' : Call) (h : Handle) :
   cases c <;> rfl
 
 theorem post_lstat_info (pre : Path) (p : Path) (c' : Call) (i : Info) :
-    prefixPost pre (.lstat p) c' (.info i) = .info { i with name := PrefixFS.reportedName pre c'.primaryPath i.name } := rfl
+    prefixPost pre (.lstat p) c' (.info i) = .info { i with name := PrefixFS.reportedInfoName pre c'.primaryPath i.name } := rfl
 
 theorem map_post_unit (pre : Path) (c c' : Call) (r : Except Err Unit) :
     (r.map (fun _ => Ret.unit)).map (prefixPost pre c c') = r.map (fun _ => Ret.unit) := by
